@@ -5,9 +5,10 @@ model:        specs/Hints.tla        requirement: Scoped, ColumnsComplete, SafeO
               specs/FactorsImpl.tla  as-is transcription of Predicate.factors / Factors.merge / And / Or / Not /
                                      Comparison.factors, Context.Tables.select / filter, Segment.predicate, visit_join's
                                      condition truthiness, visit_table / visit_reference
-              specs/HintsMC.tla      TLC judges the as-is hints of every statement of four families (predicates of
+              specs/HintsMC.tla      TLC judges the as-is hints of every statement of the families (predicates of
                                      bounded depth in where / join conditions, 2-3 tables, self joins through
-                                     references, nested statements) on EVERY database with <= 2 rows per table
+                                     references, nested statements, aggregating queries with every combination of
+                                     where / groupby / having / orderby) on EVERY database with <= 2 rows per table
 spec -> code: every statement TLC generated is built with the real DSL and parsed by a recording subclass of the real
               alchemy.Parser (public extension point generate_table + the public context segments); the RECORDED hints
               are judged by specs/TraceHints.tla over the same universe of databases (Safe decided, not sampled).
@@ -22,6 +23,7 @@ histories:    specs/LazyReads.tla  the columns a lazy reader offers its origins 
                                    requested columns, and TraceHints.tla (LazyComplete) judges every read.
 A failure of the recorded hints is a listed finding only when the as-is model predicts a failure of the same clause for
 that statement (and the statement is in the finding's syntactic class); everything else is a VIOLATION.
+The statement stream includes the clause combinations TLC enumerates from specs/ClauseMix.tla (see C06).
 TLC's -coverage cannot be used with RelAlg (see C06); the NextDb action count is checked from the state statistics.
 """
 import collections
@@ -51,10 +53,10 @@ F_LAZYEQ = 'lazy-columns-merge-equal-field-tables'
 
 # family, Depth, MaxRows, WithNull, tables of the universe
 QUICK = [('where', 1, 1, True, 2), ('on', 1, 2, False, 2), ('self', 1, 2, False, 2), ('three', 1, 1, True, 3),
-         ('negwhere', 1, 1, True, 2)]
+         ('negwhere', 1, 1, True, 2), ('having', 1, 2, False, 2)]
 THOROUGH = [('where', 1, 2, True, 2), ('on', 1, 2, True, 2), ('self', 2, 2, True, 2), ('three', 1, 2, False, 3),
             ('wheresmall', 2, 2, False, 2), ('onsmall', 2, 2, False, 2), ('negwhere', 1, 2, True, 2),
-            ('negwide', 1, 1, True, 2), ('negon', 1, 2, False, 2)]
+            ('negwide', 1, 1, True, 2), ('negon', 1, 2, False, 2), ('having', 1, 2, True, 2)]
 TABLES2 = [['A', 2], ['B', 1]]
 TABLES3 = [['A', 2], ['B', 1], ['C', 1]]
 NULL = relgen.NULL
@@ -265,8 +267,10 @@ def stream_conformance(chk):
     stmts = [s for s in stmts if not relgen.engine_excluded(s, 'sqlite')]
     want = 1500 if chk.quick else 12000
     if len(stmts) > want:
-        # statements with joins / predicates are the interesting ones: keep all semantic ones, sample the rest
-        stmts = rnd.sample(stmts, want)
+        # a seeded sample of the stream; the TLC generated clause combinations (specs/ClauseMix.tla) are all kept
+        mixed = C06.clause_mix(chk)[1]
+        rest = [s for s in stmts if g.canon(s) not in mixed]
+        stmts = (rnd.sample(rest, want) if len(rest) > want else rest) + [s for s in stmts if g.canon(s) in mixed]
     dbs = relgen.make_dbs(chk.seed, 3)
     tasks = [(i, s, [k for k, d in enumerate(dbs) if (d['keyed'] or not relgen.needs_keyed(s))
                      and relgen.row_bound(s, d['data']) <= relgen.MAX_ROWS]) for i, s in enumerate(stmts)]
